@@ -224,6 +224,8 @@ pub fn subs() -> Vec<Box<dyn AnySub>> {
             check: check_large,
         }),
         Box::new(EnumSub { name: "fold-uri-limit-sweep", exhaustive: true, list: limit_sweep, check: check_limit }),
+        Box::new(EnumSub { name: "long-non-ascii-field-sweep", exhaustive: true, list: long_field_sweep, check: check_any }),
+        Box::new(EnumSub { name: "header-count-sweep", exhaustive: true, list: header_count_list, check: check_header_count }),
         Box::new(EnumSub { name: "content-type-parameter-sweep", exhaustive: true, list: content_type_sweep, check: check_any }),
         Box::new(Sub { name: "direct", quick: 40_000, thorough: 600_000, strat: direct, check: check_direct }),
         Box::new(EnumSub {
@@ -259,6 +261,140 @@ pub fn subs() -> Vec<Box<dyn AnySub>> {
         Box::new(EnumSub { name: "secret-capacities-with-trace-logging", exhaustive: true, list: super::c06::cap_list, check: |c, cc| logged(|| check_cap_total(c, cc)) }),
         Box::new(Sub { name: "timestamps-mutated-with-trace-logging", quick: 5_000, thorough: 100_000, strat: super::c16::mutated, check: |t, cc| logged(|| check_ts_total(t, cc)) }),
     ]
+}
+
+/// Every client-controlled text that an error message, a log record or a lookup may echo, abbreviate or slice --
+/// algorithm token, credential, signed-header list, signature, date (header and query), charset, media type, token,
+/// a parameter without '=', the path -- filled with multi-byte characters (as UTF-8 bytes in headers, percent-encoded
+/// in the target) at every byte alignment, with lengths at and around 2^6 ... 2^12.
+pub fn long_field_sweep(t: Tier) -> Vec<AnyCase> {
+    let mut out = Vec::new();
+    let lens: Vec<usize> = [6u32, 7, 8, 9, 10, 12].iter().flat_map(|k| [(1usize << k) - 1, 1 << k, (1 << k) + 1]).collect();
+    for field in 0..12u8 {
+        for &len in &lens {
+            if t == Tier::Quick && len > 1100 && field % 2 == 1 {
+                continue;
+            }
+            for align in 0..4usize {
+                for piece in ["\u{e9}", "\u{65e5}", "\u{1d11e}"] {
+                    let mut text = "a".repeat(align);
+                    while text.len() < len {
+                        text.push_str(piece);
+                    }
+                    let enc = crate::model::canon::pct_encode(text.as_bytes());
+                    let cred = "AKIDEXAMPLE/20150830/us-east-1/service/aws4_request";
+                    let sig = "0".repeat(64);
+                    let mut req = WireRequest { method: "POST".into(), uri: "/".into(), version: 11, headers: vec![("Host".into(), B::from("h.example")), ("X-Amz-Date".into(), B::from("20150830T123600Z"))], body: B::default() };
+                    let auth = |alg: &str, c: &str, sh: &str, sg: &str| format!("{} Credential={}, SignedHeaders={}, Signature={}", alg, c, sh, sg);
+                    let mut authorization = auth("AWS4-HMAC-SHA256", cred, "host;x-amz-date", &sig);
+                    let mut fold = false;
+                    match field {
+                        0 => authorization = auth(&text, cred, "host;x-amz-date", &sig),
+                        1 => authorization = auth("AWS4-HMAC-SHA256", &format!("{}/20150830/us-east-1/service/aws4_request", text), "host;x-amz-date", &sig),
+                        2 => authorization = auth("AWS4-HMAC-SHA256", &format!("AKIDEXAMPLE/20150830/{}/service/aws4_request", text), "host;x-amz-date", &sig),
+                        3 => authorization = auth("AWS4-HMAC-SHA256", cred, &format!("host;{};x-amz-date", text), &sig),
+                        4 => authorization = auth("AWS4-HMAC-SHA256", cred, "host;x-amz-date", &text),
+                        5 => req.headers[1].1 = B::from(text.as_str()),
+                        6 => {
+                            req.headers.push(("Content-Type".into(), B::from(format!("application/x-www-form-urlencoded; charset={}", text))));
+                            fold = true;
+                        }
+                        7 => {
+                            req.headers.push(("Content-Type".into(), B::from(format!("{}; charset=utf-8", text))));
+                            fold = true;
+                        }
+                        8 => req.headers.push(("X-Amz-Security-Token".into(), B::from(text.as_str()))),
+                        9 => authorization = format!("{}, {}", authorization, text),
+                        10 => {
+                            if enc.len() > 60_000 {
+                                continue;
+                            }
+                            req.uri = format!("/../{}", enc);
+                        }
+                        _ => {
+                            if enc.len() > 20_000 {
+                                continue;
+                            }
+                            // query carrier: the date, the credential and a parameter without '='
+                            req.uri = format!("/?X-Amz-Algorithm=AWS4-HMAC-SHA256&X-Amz-Credential={}&X-Amz-Date={}&X-Amz-SignedHeaders=host&X-Amz-Signature={}&{}", enc, enc, sig, enc);
+                            authorization.clear();
+                        }
+                    }
+                    if !authorization.is_empty() {
+                        req.headers.push(("Authorization".into(), B::from(authorization.as_str())));
+                    }
+                    let cfg = ServerConfig { fold, ..ServerConfig::default() };
+                    let prov = ProviderScript { keys: vec![KeyEntry { access_key: "AKIDEXAMPLE".into(), token: None, secret: "secret".into(), derive_as: None, principal: PrincipalSpec::Empty, session: vec![] }], ..ProviderScript::default() };
+                    out.push(AnyCase { case: Case { req, cfg, prov } });
+                }
+            }
+        }
+    }
+    out
+}
+
+#[derive(Clone, Debug, Serialize, Deserialize)]
+pub struct HeaderCount {
+    /// header lines (distinct names) of the final request
+    pub total: usize,
+    pub fold: bool,
+    pub query_carrier: bool,
+}
+
+/// Numbers of distinct header names at which a hash table's capacity steps (3/4 of a power of two) and at the
+/// powers of two themselves, one below and one above each; a folded form POST carrying Content-Length, so
+/// that whatever rewrites, inserts or removes headers on the way does it in a table that is exactly full.
+pub fn header_count_list(t: Tier) -> Vec<HeaderCount> {
+    let mut sizes = Vec::new();
+    for k in 3u32..=15 {
+        for base in [1usize << k, 3 * (1usize << k) / 4] {
+            for d in [-1i64, 0, 1] {
+                sizes.push((base as i64 + d) as usize);
+            }
+        }
+    }
+    sizes.sort();
+    sizes.dedup();
+    let mut out = Vec::new();
+    for total in sizes {
+        if total < 6 || total > 32_768 || (t == Tier::Quick && total > 30_000) {
+            continue;
+        }
+        for fold in [true, false] {
+            out.push(HeaderCount { total, fold, query_carrier: total % 2 == 0 });
+        }
+    }
+    out
+}
+
+pub fn check_header_count(h: &HeaderCount, cc: &mut CaseCtx) -> CheckResult {
+    let mut plan = simple_plan(if h.query_carrier { Carrier::Query } else { Carrier::Header });
+    plan.logical.method = "POST".into();
+    plan.cfg.fold = h.fold;
+    plan.form = Some(vec![(B::from("Action"), B::from("ListThings"))]);
+    plan.logical.headers.push(("content-length".into(), vec![B::from("17")]));
+    plan.spec.signed_headers.push("content-length".into());
+    plan.spec.signed_headers.sort();
+    // host, content-type, content-length (+ x-amz-date and authorization on the header carrier) are there already
+    let fixed = if h.query_carrier { 3 } else { 5 };
+    for i in 0..h.total.saturating_sub(fixed) {
+        plan.logical.headers.push((format!("x-n{}", i), vec![B::from("v")]));
+    }
+    let Ok(built) = plan.build() else { return Ok(()) };
+    let o = exec::run(&built.case);
+    if let exec::Res::Unrepresentable(_) = o.res {
+        cc.class("beyond-what-http-can-carry");
+        return Ok(());
+    }
+    cc.class("header-count");
+    cc.class_if(o.res.is_ok(), "accepted");
+    cc.nontrivial(digest_of(&[&h.total.to_le_bytes(), &[h.fold as u8, h.query_carrier as u8]]));
+    if h.total.is_power_of_two() && h.fold {
+        cc.sample(json!({"header_lines": built.case.req.headers.len(), "fold": h.fold, "crate": o.res.short().chars().take(80).collect::<String>()}));
+    }
+    check_total(&o).map_err(|f| Failure::new(&f.sig, format!("{} header lines, folding {}: {}", built.case.req.headers.len(), h.fold, f.msg)))?;
+    let a = crate::model::verify::analyze(&built.case);
+    check_against_model(&a, &o).map_err(|f| Failure::new(&f.sig, format!("{} header lines, folding {}: {}", built.case.req.headers.len(), h.fold, f.msg.chars().take(200).collect::<String>())))
 }
 
 /// Every charset label of the list, every single visible ASCII character and every pair of punctuation characters
